@@ -1,5 +1,5 @@
 (* C06 - nested (path-addressed) updates and slices follow list/dict semantics.  Statements only. *)
-From RU Require Import Base Types Defs BitReader World WireSpec BitReaderProofs NestedProofs NestedGlue.
+From RU Require Import Base Types Defs BitReader World WireSpec BitReaderProofs NestedProofs NestedGlue NestedDict.
 Open Scope N_scope.
 
 (* the bit path: for every value and every valid path of any depth, the encoding "1 + index in bits_required(size) bits
@@ -52,6 +52,17 @@ Theorem C06_nested_set_list_element : forall St e m pid p top pth pbits et l i x
              Ok (set_client e (p_name p) (update_at pth (VList et (replace_nth i x l)) top), cs).
 Proof. exact nested_set_list_element. Qed.
 Print Assumptions C06_nested_set_list_element.
+(* one field of a fixed dict at any depth: the field index is taken in the DECLARED field order, in bits_required(#fields) bits *)
+Theorem C06_nested_set_dict_field : forall St e m pid p top pth pbits fs kvs i fname ftype x,
+  nth_error (e_client m) pid = Some p -> assoc_get (p_name p) (en_client e) = Some top ->
+  encode_path top pth = Some pbits -> leaf_of top pth = Some (VDict fs kvs) ->
+  (i < length kvs)%nat -> nth_error fs i = Some (fname, ftype) -> has_type code_limits ftype x ->
+  let bits := (to_bits 1 1 ++ to_bits (bits_required (length (e_client m))) (N.of_nat pid) ++ pbits
+               ++ to_bits (bits_required (length kvs)) (N.of_nat i))%list in
+  exists cs, nested_apply St e m false (pack_bits bits ++ wire_encode 1 ftype x) =
+             Ok (set_client e (p_name p) (update_at pth (VDict fs (assoc_set fname x kvs)) top), cs).
+Proof. exact nested_set_dict_field. Qed.
+Print Assumptions C06_nested_set_dict_field.
 (* slices: replace / insert / delete, for ALL bounds that fit the bit width (i > j and bounds beyond the end included) *)
 Theorem C06_nested_slice_list : forall St e m pid p top pth pbits et l i j xs,
   nth_error (e_client m) pid = Some p -> assoc_get (p_name p) (en_client e) = Some top ->
